@@ -153,6 +153,19 @@ static void announce(const ompl::base::AtlasChart *c)
     }
 }
 
+// candidates of the owningChart call in progress (chart log only): per candidate chart the psiInverse -> phi -> inPolytope
+// triple the library's loop makes, in the order of chartNN_.nearestR
+struct OwnCand
+{
+    const void *chart = nullptr;
+    Eigen::VectorXd temp;
+    int inP = -1;
+};
+static bool g_ownActive = false;
+static std::vector<OwnCand> g_ownCands;
+static bool g_ownCalled = false;
+static const void *g_ownRet = nullptr;
+
 struct Nest
 {
     bool top;
@@ -210,6 +223,8 @@ void ompl::base::AtlasChart::phi(CRef u, MRef out) const
     Nest nst;
     Eigen::VectorXd uin = u;
     real(this, u, out);
+    if (g_ownActive && !g_ownCands.empty() && g_ownCands.back().chart == this)
+        g_ownCands.back().temp = out;
     if (nst.top)
     {
         evTok("PHI");
@@ -230,6 +245,11 @@ void ompl::base::AtlasChart::psiInverse(CRef x, MRef out) const
     Nest nst;
     Eigen::VectorXd xin = x;
     real(this, x, out);
+    if (g_ownActive)
+    {
+        g_ownCands.emplace_back();
+        g_ownCands.back().chart = this;
+    }
     if (nst.top)
     {
         evTok("PI");
@@ -246,6 +266,8 @@ bool ompl::base::AtlasChart::inPolytope(CRef u, const Halfspace *i1, const Halfs
         return real(this, u, i1, i2);
     Nest nst;
     bool r = real(this, u, i1, i2);
+    if (g_ownActive && !g_ownCands.empty() && g_ownCands.back().chart == this)
+        g_ownCands.back().inP = r ? 1 : 0;
     if (g_clogOn && i1 == nullptr && i2 == nullptr)
     {
         announce(this);
@@ -353,7 +375,25 @@ ompl::base::AtlasChart *ompl::base::AtlasStateSpace::getChart(const StateType *s
         return real(this, state, force, created);
     Nest nst;
     bool before = created ? *created : false;
+    const AtlasChart *cached = state->getChart();
+    size_t nBefore = charts_.size();
+    g_ownCalled = false;
     AtlasChart *c = real(this, state, force, created);
+    if (g_clogOn)
+    {
+        // GCK <cached cid|-1> <force> <owningChart called> <its answer|-1> <chart made by newChart|-1> <returned|-1> <created written>
+        bool ownCalled = g_ownCalled;
+        const void *ownRet = ownCalled ? g_ownRet : nullptr;
+        const void *fresh = charts_.size() > nBefore ? (const void *)charts_.back() : nullptr;
+        clTok("GCK");
+        clTok(chartTok(cached));
+        clTok(force ? "1" : "0");
+        clTok(ownCalled ? "1" : "0");
+        clTok(chartTok(ownRet));
+        clTok(chartTok(fresh));
+        clTok(chartTok(c));
+        clTok((created == nullptr || before) ? "x" : (*created ? "1" : "0"));
+    }
     if (nst.top)
     {
         evTok("GC");
@@ -371,7 +411,30 @@ ompl::base::AtlasChart *ompl::base::AtlasStateSpace::owningChart(const StateType
     if (!g_rec && !g_clogOn)  // nothing is being recorded (planner runs): straight through to the library
         return real(this, state);
     Nest nst;
+    if (g_clogOn)
+    {
+        g_ownActive = true;
+        g_ownCands.clear();
+    }
     AtlasChart *c = real(this, state);
+    g_ownActive = false;
+    g_ownCalled = true;
+    g_ownRet = c;
+    if (g_clogOn)
+    {
+        // OWN <x:n> <epsilon_> <ncand> { <cid> <inPolytope> <phi(psiInverse(x)):n> }* <returned cid|-1>
+        clTok("OWN");
+        clVec(*state);
+        clTok(vp::bits(epsilon_));
+        clTok(std::to_string(g_ownCands.size()));
+        for (auto &cd : g_ownCands)
+        {
+            clTok(chartTok(cd.chart));
+            clTok(std::to_string(cd.inP));
+            clVec(cd.temp);
+        }
+        clTok(chartTok(c));
+    }
     if (nst.top)
     {
         evTok("OC");
@@ -409,7 +472,7 @@ struct RecCon : ob::Constraint
 
     static unsigned coDim(const std::string &k)
     {
-        return (k == "spherepl" || k == "nearpar" || k == "isect") ? 2 : 1;
+        return (k == "spherepl" || k == "nearpar" || k == "isect" || k == "semising") ? 2 : 1;
     }
     RecCon(const std::string &k, unsigned n_, double tol, unsigned maxit)
       : ob::Constraint(n_, coDim(k), tol), kind(k), n(n_), m(coDim(k))
@@ -465,6 +528,14 @@ struct RecCon : ob::Constraint
         {
             double x2 = x[0] * x[0];
             out[0] = x[n - 1] - 25.0 * (x2 * x2);
+        }
+        else if (kind == "semising")
+        {
+            // sphere ∩ { x_last * max(0, x0)^2 = 0 }: for x0 > 0 a regular (n-2)-manifold (x_last = 0); for x0 <= 0 the second
+            // row of the Jacobian vanishes identically: every manifold point there is singular (no tangent space, no chart)
+            double h = x[0] > 0 ? x[0] * x[0] : 0.0;
+            out[0] = std::sqrt(sumsq(x)) - 1.0;
+            out[1] = x[n - 1] * h;
         }
         else if (kind == "hemi")
         {
@@ -556,6 +627,17 @@ struct RecCon : ob::Constraint
         {
             out(0, 0) = -100.0 * x[0] * x[0] * x[0];
             out(0, n - 1) += 1.0;
+        }
+        else if (kind == "semising")
+        {
+            double r = std::sqrt(sumsq(x));
+            for (unsigned i = 0; i < n; ++i)
+                out(0, i) = r > 0 ? x[i] / r : 0.0;
+            if (x[0] > 0)
+            {
+                out(1, 0) = x[n - 1] * 2.0 * x[0];
+                out(1, n - 1) = x[0] * x[0];
+            }
         }
         else if (kind == "hemi")
         {
@@ -851,7 +933,7 @@ int main()
         }
         if (n < 3 || n > 8 || (spaceKind != "proj" && spaceKind != "atlas" && spaceKind != "tb"))
             throw 1;
-        static const char *kinds[] = {"sphere", "spherenj", "torus", "plane", "spherepl", "quartic", "quarticg", "nearpar", "isect", "hemi", "logg"};
+        static const char *kinds[] = {"sphere", "spherenj", "torus", "plane", "spherepl", "quartic", "quarticg", "nearpar", "isect", "hemi", "logg", "semising"};
         bool okk = false;
         for (auto k : kinds)
             okk |= conKind == k;
